@@ -58,6 +58,12 @@ class Run:
                 self.theorems.append({"module": module, "name": n, "ok": False, "assumptions": "not built"})
             return False
         res = coq_assumptions(module, theorem_names)
+        if self.tier == "thorough":
+            # independent re-check of the compiled file and everything it depends on
+            okc, text = coqchk(module)
+            self.extra_cov["coqchk"] = text[-400:]
+            if not okc:
+                self.proof_errors.append("coqchk rejected %s or reports axioms: %s" % (module, text[-600:]))
         allok = True
         for n in theorem_names:
             a = res.get(n)
@@ -218,6 +224,18 @@ def coq_assumptions(module, names):
         os.unlink(os.path.join(d, fn))
     os.rmdir(d)
     return res
+
+
+def coqchk(module):
+    modname = "SV." + module.replace("/", ".")
+    try:
+        p = subprocess.run(["coqchk", "-silent", "-o", "-Q", os.path.join(COQ, "theories"), "SV", modname],
+                           cwd=COQ, capture_output=True, text=True, timeout=900)
+    except subprocess.TimeoutExpired:
+        return False, "coqchk timeout"
+    text = p.stdout + p.stderr
+    ok = p.returncode == 0 and "Axioms: <none>" in text
+    return ok, text
 
 
 def main_wrapper(pid, check_fn, argv):
